@@ -130,6 +130,90 @@ class SymMap:
         return r
 
 
+class HavocMap(SymMap):
+    """A table in an ARBITRARY pre-state (one step from any reachable or unreachable state of the parser tables).  The first
+    lookup of each distinct key decides - by a fork on a harness-declared Boolean - whether the pre-state binds that key, and
+    to which harness-declared value; later lookups of an equal key agree with that decision.  Writes behave as in SymMap.
+    Enumerating the table is not supported (its size is unknown).  `initial` records the part of the pre-state the run
+    consulted, so that a concrete run can be repeated on a real dict holding exactly those entries."""
+
+    def __init__(self, slots, name='map'):
+        SymMap.__init__(self, name=name)
+        self.slots = list(slots)        # [(present, value)] consumed in order of first lookups
+        self.used = 0
+        self.absent = []
+        self.initial = []
+        self.cleared = False
+
+    def _find(self, k):
+        i = SymMap._find(self, k)
+        if i >= 0 or self.cleared:
+            return i
+        for a in self.absent:
+            if bool(key_eq(a, k)):
+                return -1
+        if self.used >= len(self.slots):
+            raise Unsupported('%s: more than %d distinct keys looked up in an arbitrary pre-state' % (self.name, len(self.slots)))
+        present, value = self.slots[self.used]
+        self.used += 1
+        if bool(present):
+            self.pairs.append((k, value))
+            self.initial.append((k, value))
+            return len(self.pairs) - 1
+        self.absent.append(k)
+        return -1
+
+    def _forget_absent(self, k):
+        self.absent = [a for a in self.absent if not bool(key_eq(a, k))]
+
+    def _set(self, k, v):
+        i = SymMap._find(self, k)
+        if i < 0:
+            # the pre-state's binding of k (if any) is overwritten without having been read: no need to decide it
+            self._forget_absent(k)
+            self.pairs.append((k, v))
+            self.overwritten = getattr(self, 'overwritten', []) + [k]
+        else:
+            self.pairs[i] = (self.pairs[i][0], v)
+
+    def _find_known(self, k):
+        """lookup that treats keys overwritten before being read as decided"""
+        return self._find(k)
+
+    def pop(self, k, d=_MISSING):
+        i = self._find(k)
+        if i < 0:
+            if d is not _MISSING:
+                return d
+            raise KeyError(k)
+        self.log.append(('del', k, None, self.writer))
+        v = self.pairs.pop(i)[1]
+        self.absent.append(k)
+        return v
+
+    def setdefault(self, k, d=None):
+        i = self._find(k)
+        if i < 0:
+            self.log.append(('set', k, d, self.writer))
+            self._forget_absent(k)
+            self.pairs.append((k, d))
+            return d
+        return self.pairs[i][1]
+
+    def clear(self):
+        SymMap.clear(self)
+        self.cleared = True
+        self.absent = []
+
+    def _no_enum(self, *a, **kw):
+        raise Unsupported('%s: enumeration of a table in an arbitrary pre-state' % self.name)
+
+    __len__ = __iter__ = keys = values = items = __bool__ = copy = _no_enum
+
+    def __repr__(self):
+        return 'HavocMap(%s, %d entries consulted)' % (self.name, len(self.pairs))
+
+
 class SymTable(dict):
     """A concrete dict (of the host or of the repo) probed with symbolic int keys."""
     sx_name = 'table'
